@@ -94,33 +94,26 @@ theorem getLine_p (b : Buf) (h : WF b) (hl : Loaded b) :
     rw [m3, m2] at this
     exact this
 
-theorem specGetLine_cur (a : Abs) (hin : a.cur ≤ a.src.length) :
-    a.cur ≤ (specGetLine a).2.2.cur ∧ (specGetLine a).2.2.cur ≤ a.src.length ∧ (specGetLine a).2.2.src = a.src := by
+theorem specGetLine_cur (a : Abs) :
+    a.cur ≤ (specGetLine a).2.2.cur ∧ (specGetLine a).2.2.src = a.src := by
   by_cases hs : a.suffix = []
-  · rw [specGetLine_eof a hs]; exact ⟨Nat.le_refl _, hin, rfl⟩
+  · rw [specGetLine_eof a hs]; exact ⟨Nat.le_refl _, rfl⟩
   · rw [specGetLine_ok a hs]
-    have hb := memnewline_bound a.suffix
-    have hl := abs_suffix_length a
-    refine ⟨Nat.le_add_right _ _, ?_, rfl⟩
-    show a.cur + ((memnewline a.suffix).1 + (memnewline a.suffix).2) ≤ a.src.length
-    omega
+    exact ⟨Nat.le_add_right _ _, rfl⟩
 
-theorem specRead_cur (a : Abs) (k : Nat) (hin : a.cur ≤ a.src.length) :
-    a.cur ≤ (specRead a k).2.2.cur ∧ (specRead a k).2.2.cur ≤ a.src.length ∧ (specRead a k).2.2.src = a.src := by
+theorem specRead_cur (a : Abs) (k : Nat) :
+    a.cur ≤ (specRead a k).2.2.cur ∧ (specRead a k).2.2.src = a.src := by
   unfold specRead
-  have hl := abs_suffix_length a
   split
-  · exact ⟨Nat.le_refl _, hin, rfl⟩
-  · refine ⟨Nat.le_add_right _ _, ?_, rfl⟩
-    show a.cur + k ≤ a.src.length
-    omega
+  · exact ⟨Nat.le_refl _, rfl⟩
+  · exact ⟨Nat.le_add_right _ _, rfl⟩
 
 /-- common part of the simulation of an operation that refines a specification function `f` on `Abs` and keeps the
     anchor record -/
 theorem sim_of_refines {P : Nat} {a : AState} {s s' : Sess} {o : Out} {spec : St × Bytes × Abs} {lp : Option Nat}
     (r : R P a s) (wf : WF s'.b) (pg : PG s'.b) (k : KeepA s.b s'.b) (aok : AnchOK s'.b)
     (e : (o.st, o.bytes, s'.b.abs) = spec)
-    (hc : a.cur ≤ spec.2.2.cur ∧ spec.2.2.cur ≤ a.src.length ∧ spec.2.2.src = a.src)
+    (hc : a.cur ≤ spec.2.2.cur ∧ spec.2.2.src = a.src)
     (hlp : s'.lastp.map (s'.b.base + ·) = lp) (hlple : ∀ p, lp = some p → a.cur ≤ p ∧ p ≤ spec.2.2.cur) :
     (⟨o.st, o.bytes, s'.b.base + s'.b.pos⟩ : Obs) = ⟨spec.1, spec.2.1, spec.2.2.cur⟩ ∧
     R P { a with cur := spec.2.2.cur, lastp := lp } s' := by
@@ -129,7 +122,7 @@ theorem sim_of_refines {P : Nat} {a : AState} {s s' : Sess} {o : Out} {spec : St
   have e3 : s'.b.abs = spec.2.2 := congrArg (fun x => x.2.2) e
   have e4 : s'.b.base + s'.b.pos = spec.2.2.cur := by rw [← e3]; rfl
   refine ⟨by rw [e1, e2, e4], ?_⟩
-  exact r.of_keepA (a' := { a with cur := spec.2.2.cur, lastp := lp }) wf pg k aok rfl rfl rfl e4 hc.1 hc.2.1 hlp hlple
+  exact r.of_keepA (a' := { a with cur := spec.2.2.cur, lastp := lp }) wf pg k aok rfl rfl rfl e4 hc.1 hlp hlple
 
 theorem sim_getLine (P : Nat) : SimStep P .getLine := by
   intro a s r _
@@ -137,7 +130,7 @@ theorem sim_getLine (P : Nat) : SimStep P .getLine := by
   rw [r.abs_eq] at e
   obtain ⟨k, ok⟩ := getLine_keep s.b r.wf r.aok r.nfa
   obtain ⟨p1, p2⟩ := getLine_p s.b r.wf (r.pg.loaded r.wf)
-  have hc := specGetLine_cur a.abs r.inb
+  have hc := specGetLine_cur a.abs
   have e1 : (getLine s.b).1.st = (specGetLine a.abs).1 := congrArg Prod.fst e
   refine sim_of_refines (s' := (s.step .getLine).2) (o := (getLine s.b).1) (spec := specGetLine a.abs)
     (lp := if (specGetLine a.abs).1 = .ok then some a.cur else none) r w pg k ok e hc ?_ ?_
@@ -159,7 +152,7 @@ theorem sim_fetchLine_gen (P : Nat) (asStr : Bool) (op : Op) (hop : op = .fetchL
   obtain ⟨w, e, _, pg, _⟩ := fetchLine_refines s.b asStr r.wf (r.pg.loaded r.wf)
   rw [r.abs_eq] at e
   obtain ⟨k, ok⟩ := fetchLine_keep s.b asStr r.wf r.aok r.nfa
-  have hc := specGetLine_cur a.abs r.inb
+  have hc := specGetLine_cur a.abs
   have hb : (s.step op).2.b = (fetchLine s.b asStr).2 := by rw [step_b, hrun]
   have hl : (s.step op).2.lastp = none := by rw [step_lastp, hrun]; exact fetchLine_p s.b asStr
   have ho : (s.step op).1 = (fetchLine s.b asStr).1 := by rw [step_out, hrun]
@@ -186,7 +179,7 @@ theorem sim_read (P : Nat) (n : Nat) : SimStep P (.read n) := by
   obtain ⟨w, e, _, pg⟩ := read_refines s.b n r.wf
   rw [r.abs_eq] at e
   obtain ⟨k, ok⟩ := read_keep s.b n r.wf r.aok
-  have hc := specRead_cur a.abs n r.inb
+  have hc := specRead_cur a.abs n
   exact sim_of_refines (s' := (s.step (.read n)).2) (o := (read s.b n).1) (spec := specRead a.abs n) (lp := none)
     r w pg k.toKeepA ok e hc (by show ((read s.b n).1.p).map _ = none; rw [read_p]; rfl) (fun p hp => by cases hp)
 
